@@ -275,6 +275,20 @@ func ComputeEffects(m *Model) *Effects {
 // FuncValueRole names the role of a dynamically called function value: the parameter,
 // field or captured variable it was read from.
 func FuncValueRole(f *ssa.Function, v ssa.Value) string {
+	// the map's hash function is recognised by its shape - func(key, seed uint64) uint64 - not by what it is called
+	if sig, ok := v.Type().Underlying().(*types.Signature); ok && sig.Params().Len() == 2 && sig.Results().Len() == 1 {
+		isU64 := func(t types.Type) bool {
+			b, ok := t.Underlying().(*types.Basic)
+			return ok && b.Kind() == types.Uint64
+		}
+		if isU64(sig.Params().At(1).Type()) && isU64(sig.Results().At(0).Type()) {
+			return "hasher:" + funcValueRole(f, v)
+		}
+	}
+	return funcValueRole(f, v)
+}
+
+func funcValueRole(f *ssa.Function, v ssa.Value) string {
 	switch x := v.(type) {
 	case *ssa.Parameter:
 		return "param:" + x.Name()
